@@ -1284,7 +1284,7 @@ impl<'a> Query<'a> {
         let mut constraint_attributes = Vec::new();
         match querystring.split(QUERYSPLITCHARS).next() {
             Some("WHERE") => querystring = querystring["WHERE".len()..].trim_start(),
-            Some("{") | Some("") | None => {} //no-op (select all, end of query, no where clause)
+            Some("{") | Some("}") | Some("|") | Some("") | None => {} //no-op (select all, end of (sub)query, no where clause)
             _ => {
                 return Err(StamError::QuerySyntaxError(
                     format!(
@@ -1805,7 +1805,7 @@ impl<'a> Query<'a> {
                 s.push(' ');
                 s += &subquery.to_string()?;
             }
-            s += "}";
+            s += " }";
         }
         Ok(s)
     }
